@@ -60,6 +60,9 @@ TEXTS = {
     "T-fail-in-case": "def 0 { switch ($S) { case 1: foo(); jump @nowhere2; } }",
     "T-stray-continue": "def 0 { @a; foo(); continue; }",
     "T-stray-break": "def 0 { @a; foo(); break; }",
+    # the same numbers in other spellings (a process-wide memo keyed by a normalised spelling would mix them up)
+    "T-dec-a": "def 0 { a(1.5, 0.25, -2.50, 10.0); b(0x10, 7); return; }",
+    "T-dec-b": "def 0 { a(1.50, 0.250, -2.5, 10.00); b(16, 007.0); return; }",
     "T-ssbscript": "//?: is-ssb-script: true\ndef 0 {\n    a(1);\n    @l;\n    Jump(@l);\n}\n",
     "T-coro": "coro A { a(); return; }\ncoro B { alias previous; }",
     # explicit loop / case control statements at every nesting (per-compile handler stacks)
@@ -173,6 +176,23 @@ def twice_same_objects(case: dict) -> dict:
         mutated = canon.ops_recs(ops, jump_last=False) != before or [(i.type.name, i.linked_to, i.linked_to_name) for i in infos] != before_infos
     except Exception:
         mutated = True
+    # the SsbScript decompiler, called directly on its own fresh objects
+    from explorerscript.ssb_script.ssb_converting.ssb_decompiler import SsbScriptSsbDecompiler
+    ops2 = canon.build_ops(case["routines"])
+    infos2, coros2 = canon.build_infos(case["infos"])
+    before2 = canon.ops_recs(copy.deepcopy(ops2), jump_last=False)
+    souts = []
+    for _ in range(2):
+        try:
+            text, sm = SsbScriptSsbDecompiler(infos2, ops2, coros2).convert()
+            souts.append({"status": "ok", "text": text, "sm": sm.serialize()})
+        except Exception as ex:  # noqa
+            souts.append({"status": type(ex).__name__, "text": "", "sm": None})
+    try:
+        mutated = mutated or canon.ops_recs(ops2, jump_last=False) != before2
+    except Exception:
+        mutated = True
+    outs[0]["ssbscript"], outs[1]["ssbscript"] = souts[0], souts[1]
     return {"first": digest(outs[0]), "second": digest(outs[1]), "mutated": mutated, "status": outs[0]["status"]}
 
 
